@@ -830,7 +830,7 @@ func tokenLoopPrefix(j, tl int, free bool) []slOp {
 
 func c13Work(c *engine.Ctx) {
 	sp := c.SpaceByName("sl")
-	datas := []string{"", "a", "ab", "abc", "abcd", "abcdef", "abcdefgh", "abcdefghij", "abc\u00e9f", "ab\u2028f", "ab\u20acde", "a\U0001F600bc", "\u20ac\U0001F600"}
+	datas := []string{"", "a", "ab", "abc", "abcd", "abcdef", "abcdefgh", "abcdefghij", "abc\u00e9f", "ab\u2028f", "ab\u20acde", "a\U0001F600bc", "\u20ac\U0001F600", "a\u0800b\u0fff", "\u07ff\ud7ff\ue000"}
 	sizes := []int{0, 1, 2, 3, 4, 5, 8, -1}
 	// thorough: one more operation and one more deviation per history than quick; two blind moves only for the quick depth
 	// (depth 9 with two blind moves needs tens of gigabytes for the states of one case)
@@ -845,7 +845,7 @@ func c13Work(c *engine.Ctx) {
 		bounds = []bound{b}
 	}
 	if !c.Thorough() {
-		datas = []string{"", "a", "abc", "abcdef", "abcdefghij", "abc\u00e9f", "ab\u20acde", "a\U0001F600bc"}
+		datas = []string{"", "a", "abc", "abcdef", "abcdefghij", "abc\u00e9f", "ab\u20acde", "a\U0001F600bc", "a\u0800b\u0fff"}
 		sizes = []int{0, 1, 2, 3, 4, 8, -1}
 	}
 	k := 0
